@@ -95,6 +95,7 @@ type FuncCtx struct {
 	houdiniQueries int
 	demoted        []string
 	kept           map[int][]string
+	keepOnly       map[string]bool // real pass: names of the candidates kept by the first pass
 	inlineStack    []*types.Func
 	cur            *pkgInfo
 	globals        map[string]Val
